@@ -338,4 +338,33 @@ struct LuCtl
    }
 };
 double use_lu_ctl(const LuCtl& l) { return l.diag_by_column(0); }
+
+// S3: an ascending loop that starts at 1 although nothing handled the element 0
+double ascending_skips_zero(const double* a, int n)
+{
+   double sum = 1.0;
+
+   for(int i = 1; i < n; ++i)
+      sum += a[i];
+
+   return sum;
+}
+
+// S10: a row counter used to address column data
+struct RowColCtl
+{
+   int nRows() const { return 3; }
+   int nCols() const { return 5; }
+   double lo[5];
+   double lower(int j) const { return lo[j]; }
+};
+double row_counter_addresses_columns(const RowColCtl& lp)
+{
+   double s = 0.0;
+
+   for(int i = 0; i < lp.nRows(); ++i)
+      s += lp.lower(i);
+
+   return s;
+}
 }
